@@ -1,21 +1,184 @@
 /-
-  Line-protocol helpers shared by all property drivers.  Mathlib-free.
-  Numbers travel as JSON integers or as strings "p/q" (exact rationals);
-  floats (only used by the transcendental models) as JSON numbers.
--/
-import Lean.Data.Json
+  Line-protocol helpers shared by all property drivers.  Core Lean only (no
+  `import Lean`), so that the driver links in seconds and stays small.
 
-namespace ALV.J
-open Lean
+  Numbers travel as JSON integers (arbitrary precision) or as strings "p/q"
+  (exact rationals).  Floats produced by the transcendental models are sent as
+  exact rationals of their binary value ("p/q"), never as decimal text.
+-/
+namespace ALV
+
+inductive Json where
+  | null
+  | bool (b : Bool)
+  | int (i : Int)
+  | flt (f : Float)          -- only produced by the parser for decimal literals
+  | str (s : String)
+  | arr (l : List Json)
+  | obj (kv : List (String × Json))
+  deriving Inhabited
+
+namespace Json
+
+def mkObj (kv : List (String × Json)) : Json := .obj kv
+
+def escape (s : String) : String :=
+  s.foldl (fun acc c =>
+    if c = '"' then acc ++ "\\\""
+    else if c = '\\' then acc ++ "\\\\"
+    else if c = '\n' then acc ++ "\\n"
+    else if c = '\t' then acc ++ "\\t"
+    else if c = '\r' then acc ++ "\\r"
+    else if c.toNat < 32 then acc ++ "\\u00" ++ (if c.toNat < 16 then "0" else "1") ++
+      String.singleton (Nat.digitChar (c.toNat % 16))
+    else acc.push c) ""
+
+/-- exact binary value of a float: JSON integer, or string "p/q" / "nan" / "inf" / "-inf" -/
+def floatExact (x : Float) : String :=
+  if x.isNaN then "\"nan\""
+  else if x.isInf then (if x > 0 then "\"inf\"" else "\"-inf\"")
+  else
+    let b : Nat := x.toBits.toNat
+    let neg := b / 2 ^ 63 % 2 = 1
+    let ex : Nat := b / 2 ^ 52 % 2 ^ 11
+    let mant : Nat := b % 2 ^ 52
+    let (m, e) : Nat × Int := if ex = 0 then (mant, -1074) else (2 ^ 52 + mant, (ex : Int) - 1075)
+    let mi : Int := if neg then -(m : Int) else m
+    if e ≥ 0 then toString (mi * 2 ^ e.toNat)
+    else
+      let r := mkRat mi (2 ^ (-e).toNat)
+      if r.den = 1 then toString r.num else s!"\"{r.num}/{r.den}\""
+
+partial def compress : Json → String
+  | null => "null"
+  | bool true => "true"
+  | bool false => "false"
+  | int i => toString i
+  | flt f => floatExact f
+  | str s => "\"" ++ escape s ++ "\""
+  | arr l => "[" ++ ",".intercalate (l.map compress) ++ "]"
+  | obj kv => "{" ++ ",".intercalate (kv.map fun (k, v) => "\"" ++ escape k ++ "\":" ++ compress v) ++ "}"
+
+/-! ### parser (recursive descent over a `List Char`) -/
+
+abbrev P := List Char
+
+def skipWs : P → P
+  | c :: cs => if c = ' ' ∨ c = '\n' ∨ c = '\t' ∨ c = '\r' then skipWs cs else c :: cs
+  | [] => []
+
+def hexVal (c : Char) : Option Nat :=
+  if '0' ≤ c ∧ c ≤ '9' then some (c.toNat - '0'.toNat)
+  else if 'a' ≤ c ∧ c ≤ 'f' then some (c.toNat - 'a'.toNat + 10)
+  else if 'A' ≤ c ∧ c ≤ 'F' then some (c.toNat - 'A'.toNat + 10)
+  else none
+
+partial def parseStrBody (acc : String) : P → Except String (String × P)
+  | [] => .error "unterminated string"
+  | '"' :: cs => .ok (acc, cs)
+  | '\\' :: c :: cs =>
+    match c with
+    | 'n' => parseStrBody (acc.push '\n') cs
+    | 't' => parseStrBody (acc.push '\t') cs
+    | 'r' => parseStrBody (acc.push '\r') cs
+    | 'b' => parseStrBody (acc.push (Char.ofNat 8)) cs
+    | 'f' => parseStrBody (acc.push (Char.ofNat 12)) cs
+    | 'u' =>
+      match cs with
+      | a :: b :: c' :: d :: rest =>
+        match hexVal a, hexVal b, hexVal c', hexVal d with
+        | some a, some b, some c', some d =>
+          parseStrBody (acc.push (Char.ofNat (((a * 16 + b) * 16 + c') * 16 + d))) rest
+        | _, _, _, _ => .error "bad \\u escape"
+      | _ => .error "bad \\u escape"
+    | c => parseStrBody (acc.push c) cs
+  | c :: cs => parseStrBody (acc.push c) cs
+
+def takeWhile (p : Char → Bool) : P → (List Char × P)
+  | c :: cs => if p c then let (a, b) := takeWhile p cs; (c :: a, b) else ([], c :: cs)
+  | [] => ([], [])
+
+def digitsToNat (ds : List Char) : Nat := ds.foldl (fun n c => n * 10 + (c.toNat - '0'.toNat)) 0
+
+def parseNum (cs : P) : Except String (Json × P) :=
+  let (neg, cs) := match cs with | '-' :: r => (true, r) | r => (false, r)
+  let (ip, cs) := takeWhile Char.isDigit cs
+  if ip.isEmpty then .error "bad number" else
+  let (fp, cs) := match cs with
+    | '.' :: r => takeWhile Char.isDigit r
+    | r => ([], r)
+  let (ex, cs) : (Option Int × P) := match cs with
+    | 'e' :: r | 'E' :: r =>
+      let (sgn, r) := match r with | '-' :: r' => (true, r') | '+' :: r' => (false, r') | r' => (false, r')
+      let (ed, r) := takeWhile Char.isDigit r
+      (some (if sgn then -(digitsToNat ed : Int) else (digitsToNat ed : Int)), r)
+    | r => (none, r)
+  if fp.isEmpty ∧ ex.isNone then
+    let n : Int := digitsToNat ip
+    .ok (.int (if neg then -n else n), cs)
+  else
+    let m := digitsToNat (ip ++ fp)
+    let e : Int := (ex.getD 0) - fp.length
+    let f := if e ≥ 0 then Float.ofScientific (m * 10 ^ e.toNat) false 0
+             else Float.ofScientific m true (-e).toNat
+    .ok (.flt (if neg then -f else f), cs)
+
+mutual
+partial def parseVal (cs : P) : Except String (Json × P) :=
+  match skipWs cs with
+  | [] => .error "unexpected end"
+  | 'n' :: 'u' :: 'l' :: 'l' :: r => .ok (.null, r)
+  | 't' :: 'r' :: 'u' :: 'e' :: r => .ok (.bool true, r)
+  | 'f' :: 'a' :: 'l' :: 's' :: 'e' :: r => .ok (.bool false, r)
+  | '"' :: r => do let (s, r) ← parseStrBody "" r; pure (.str s, r)
+  | '[' :: r =>
+    match skipWs r with
+    | ']' :: r' => .ok (.arr [], r')
+    | r' => parseArr [] r'
+  | '{' :: r =>
+    match skipWs r with
+    | '}' :: r' => .ok (.obj [], r')
+    | r' => parseObj [] r'
+  | cs' => parseNum cs'
+partial def parseArr (acc : List Json) (cs : P) : Except String (Json × P) := do
+  let (v, r) ← parseVal cs
+  match skipWs r with
+  | ',' :: r' => parseArr (v :: acc) r'
+  | ']' :: r' => pure (.arr (v :: acc).reverse, r')
+  | _ => .error "expected , or ]"
+partial def parseObj (acc : List (String × Json)) (cs : P) : Except String (Json × P) := do
+  match skipWs cs with
+  | '"' :: r =>
+    let (k, r) ← parseStrBody "" r
+    match skipWs r with
+    | ':' :: r' =>
+      let (v, r'') ← parseVal r'
+      match skipWs r'' with
+      | ',' :: r3 => parseObj ((k, v) :: acc) r3
+      | '}' :: r3 => pure (.obj ((k, v) :: acc).reverse, r3)
+      | _ => .error "expected , or }"
+    | _ => .error "expected :"
+  | _ => .error "expected key"
+end
+
+def parse (s : String) : Except String Json := do
+  let (v, r) ← parseVal s.toList
+  if (skipWs r).isEmpty then pure v else .error "trailing characters"
+
+def getObjVal? (j : Json) (k : String) : Option Json :=
+  match j with
+  | obj kv => (kv.find? (·.1 == k)).map (·.2)
+  | _ => none
+
+end Json
+
+namespace J
 
 def ratToJson (r : Rat) : Json :=
-  if r.den = 1 then Json.num (JsonNumber.fromInt r.num)
-  else Json.str s!"{r.num}/{r.den}"
+  if r.den = 1 then Json.int r.num else Json.str s!"{r.num}/{r.den}"
 
-def intToJson (i : Int) : Json := Json.num (JsonNumber.fromInt i)
-def natToJson (n : Nat) : Json := Json.num (JsonNumber.fromNat n)
-
-def parseInt? (s : String) : Option Int := s.toInt?
+def intToJson (i : Int) : Json := Json.int i
+def natToJson (n : Nat) : Json := Json.int n
 
 def parseRat? (s : String) : Option Rat :=
   match s.splitOn "/" with
@@ -28,9 +191,8 @@ def parseRat? (s : String) : Option Rat :=
 
 def getRat (j : Json) : Except String Rat :=
   match j with
-  | Json.num n =>
-      if n.exponent = 0 then pure (n.mantissa : Rat)
-      else pure (mkRat n.mantissa (10 ^ n.exponent))
+  | Json.int n => pure (n : Rat)
+  | Json.bool b => pure (if b then 1 else 0)
   | Json.str s => match parseRat? s with
       | some r => pure r
       | none => throw s!"bad rational {s}"
@@ -38,7 +200,8 @@ def getRat (j : Json) : Except String Rat :=
 
 def getInt (j : Json) : Except String Int :=
   match j with
-  | Json.num n => if n.exponent = 0 then pure n.mantissa else throw "expected integer"
+  | Json.int n => pure n
+  | Json.bool b => pure (if b then 1 else 0)
   | Json.str s => match s.toInt? with
       | some i => pure i
       | none => throw s!"bad integer {s}"
@@ -56,11 +219,13 @@ def getStr (j : Json) : Except String String :=
 def getBool (j : Json) : Except String Bool :=
   match j with
   | Json.bool b => pure b
+  | Json.int 0 => pure false
+  | Json.int 1 => pure true
   | _ => throw s!"expected bool, got {j.compress}"
 
 def getArr (j : Json) : Except String (List Json) :=
   match j with
-  | Json.arr a => pure a.toList
+  | Json.arr a => pure a
   | _ => throw s!"expected array, got {j.compress}"
 
 def getList {α} (f : Json → Except String α) (j : Json) : Except String (List α) := do
@@ -69,21 +234,22 @@ def getList {α} (f : Json → Except String α) (j : Json) : Except String (Lis
 
 def field (j : Json) (k : String) : Except String Json :=
   match j.getObjVal? k with
-  | .ok v => pure v
-  | .error _ => throw s!"missing field {k}"
+  | some v => pure v
+  | none => throw s!"missing field {k}"
 
 def fieldD (j : Json) (k : String) (d : Json) : Json :=
   match j.getObjVal? k with
-  | .ok v => v
-  | .error _ => d
+  | some v => v
+  | none => d
 
+/-- absent or `null` ⇒ `none` -/
 def optField (j : Json) (k : String) : Option Json :=
   match j.getObjVal? k with
-  | .ok Json.null => none
-  | .ok v => some v
-  | .error _ => none
+  | some Json.null => none
+  | some v => some v
+  | none => none
 
-def arr {α} (f : α → Json) (l : List α) : Json := Json.arr (l.map f).toArray
+def arr {α} (f : α → Json) (l : List α) : Json := Json.arr (l.map f)
 def rats (l : List Rat) : Json := arr ratToJson l
 def ints (l : List Int) : Json := arr intToJson l
 def nats (l : List Nat) : Json := arr natToJson l
@@ -91,22 +257,25 @@ def optJson {α} (f : α → Json) : Option α → Json
   | none => Json.null
   | some a => f a
 
-def floatToJson (x : Float) : Json :=
-  match JsonNumber.fromFloat? x with
-  | .inr n => Json.num n
-  | .inl s => Json.str s
+/-- exact binary value of a float as "p/q"; non-finite values as "nan" / "inf" / "-inf" -/
+def floatToJson (x : Float) : Json := Json.flt x
+
+def ratToFloat (r : Rat) : Float := Float.ofInt r.num / Float.ofNat r.den
 
 def getFloat (j : Json) : Except String Float :=
   match j with
-  | Json.num n => pure n.toFloat
+  | Json.int n => pure (Float.ofInt n)
+  | Json.flt f => pure f
   | Json.str "inf" => pure (1.0 / 0.0)
   | Json.str "-inf" => pure (-1.0 / 0.0)
+  | Json.str "nan" => pure (0.0 / 0.0)
   | Json.str s => match parseRat? s with
-      | some r => pure (Float.ofInt r.num / Float.ofNat r.den)
+      | some r => pure (ratToFloat r)
       | none => throw s!"bad float {s}"
   | _ => throw s!"expected float, got {j.compress}"
 
 def ok (payload : Json) : Json := Json.mkObj [("ok", payload)]
 def err (kind : String) : Json := Json.mkObj [("err", Json.str kind)]
 
-end ALV.J
+end J
+end ALV
